@@ -33,16 +33,33 @@ def r10_1(ctx, repo):
         construct = '%s.set_dosing_regimen' % cls
         calls = [c for c in ast.walk(fn) if isinstance(c, ast.Call)
                  and U(c.func).endswith('blocktrain')]
-        if len(calls) != 1:
+        events = [c for c in ast.walk(fn) if isinstance(c, ast.Call)
+                  and U(c.func).endswith('ProtocolEvent')]
+        if len(calls) == 1:
+            c = calls[0]
+            kw = {k.arg: k.value for k in c.keywords}
+            pos = list(c.args)
+            names = ['period', 'duration', 'offset', 'level', 'limit']
+            for i, a in enumerate(pos):
+                kw.setdefault(names[i], a)
+        elif not calls and len(events) == 1:
+            # the same pulse train written as one periodic protocol event
+            # (what myokit's blocktrain builds): roles by the event's names
+            c = events[0]
+            kw0 = {k.arg: k.value for k in c.keywords}
+            pos = list(c.args)
+            names = ['level', 'start', 'duration', 'period', 'multiplier']
+            for i, a in enumerate(pos):
+                kw0.setdefault(names[i], a)
+            kw = {'period': kw0.get('period'),
+                  'duration': kw0.get('duration'),
+                  'offset': kw0.get('start'), 'level': kw0.get('level'),
+                  'limit': kw0.get('multiplier')}
+            kw = {k: v for k, v in kw.items() if v is not None}
+        else:
             ctx.error(rule, '%s: expected one blocktrain call' % construct)
             continue
-        c = calls[0]
         n += 1
-        kw = {k.arg: k.value for k in c.keywords}
-        pos = list(c.args)
-        names = ['period', 'duration', 'offset', 'level', 'limit']
-        for i, a in enumerate(pos):
-            kw.setdefault(names[i], a)
         where = repo.loc(c, cls, fn.name)
         want = {'period': 'period', 'duration': 'duration',
                 'offset': 'start', 'limit': 'num'}
